@@ -363,6 +363,9 @@ class Sym:
             l = self.ev(e.left, at, depth + 1)
             r = self.ev(e.right, at, depth + 1)
             if isinstance(e.op, ast.Add):
+                if _is_sequence_expr(e.left) or _is_sequence_expr(e.right):
+                    # `+` of sequences is concatenation: ordered, not the commutative sum of the polynomial domain
+                    return Poly.atom(f"concat({l.key()}, {r.key()})")
                 return l + r
             if isinstance(e.op, ast.Sub):
                 return l - r
@@ -936,6 +939,23 @@ def _paren(s: str) -> str:
         return "(" + s + ")"
     return s
 
+
+
+def _is_sequence_expr(n: ast.AST) -> bool:
+    """Syntactically evident list / tuple / str value: a display, a comprehension, list()/tuple()/sorted(), `m.get(k, <sequence>)`,
+    or a concatenation of one. Used to keep `a + b` ordered when it concatenates."""
+    if isinstance(n, (ast.List, ast.Tuple, ast.ListComp, ast.JoinedStr)):
+        return True
+    if isinstance(n, ast.Constant) and isinstance(n.value, (str, bytes)):
+        return True
+    if isinstance(n, ast.Call):
+        if isinstance(n.func, ast.Name) and n.func.id in ("list", "tuple", "sorted"):
+            return True
+        if isinstance(n.func, ast.Attribute) and n.func.attr == "get" and len(n.args) == 2 and not n.keywords and _is_sequence_expr(n.args[1]):
+            return True
+    if isinstance(n, ast.BinOp) and isinstance(n.op, ast.Add):
+        return _is_sequence_expr(n.left) or _is_sequence_expr(n.right)
+    return False
 
 def cmp_key(c) -> str:
     if c[0] in ("and", "or"):
